@@ -7,8 +7,6 @@ import (
 	"github.com/zeebo/xxh3"
 )
 
-const BlockBufferSize = 4 * 1024 * 1024
-
 type DataBlock[V any] struct {
 	Type          uint8 // 1: meta&timerwheel, 2: window, 3: probation, 4: protected
 	SecondaryType uint8
